@@ -304,6 +304,15 @@ def scenarios(tier: str) -> tuple[list[C02Scenario], list[C02Scenario], list[C02
                         dict(id='u1', on='update', script=s1, backoff=3), dict(id='u2', on='update', script=s2, backoff=3)]
             plain.append(C02Scenario(handlers=handlers, lifecycle=lc, user=base_user + [(20.0, 'spec', 'a', 2)], settings=settings, horizon=45.0,
                                      delays=False, early_user=False, time_dev=False))
+    # 9b. ... and ONE such foreign write is enough when a raw-event handler of the same kind puts something into the patch of every event
+    # (an idempotent note): the cycle of the stale event carries a patch of its own while the echo of the step's PATCH is still awaited
+    for lc in ('all_at_once', 'one_by_one', 'asap'):
+        for s1, s2 in ((['ok+status1'], ['ok']), (['ok'], ['ok+label1']), (['ok+status1'], ['temp', 'ok'])):
+            handlers = [dict(id='ev', on='event', script=['ok+seen']),
+                        dict(id='c1', on='create', script=s1, backoff=3), dict(id='c2', on='create', script=s2, backoff=3),
+                        dict(id='u1', on='update', script=s1, backoff=3), dict(id='u2', on='update', script=s2, backoff=3)]
+            plain.append(C02Scenario(handlers=handlers, lifecycle=lc, user=base_user + [(20.0, 'spec', 'a', 2)], settings=settings, horizon=45.0,
+                                     delays=False, early_user=False, time_dev=False))
     # 10. a parent that runs its sub-handlers explicitly (kopf.execute()) and then fails / succeeds on its own, followed by a second cycle
     for sp, sa in itertools.product((['perm'], ['temp', 'perm'], ['arb', 'ok'], ['ok']), (['ok'], ['temp', 'ok'])):
         for lc in ('asap', 'all_at_once'):
